@@ -31,6 +31,8 @@ type hist9 struct {
 
 type live9 struct {
 	w        *mc.World
+	held     *reftable.Addition // an open Addition keeping tables.list.lock
+	heldBy   int
 	hs       []*reftable.Stack
 	model    *refdb.DB
 	failed   []bool // last op of the handle was a failed Add
@@ -113,6 +115,79 @@ func (l *live9) apply(o op9, h *hist9, res *result, check bool) bool {
 	}
 	if o.Kind == "retry" && !l.failed[o.H] {
 		return false
+	}
+	if o.Kind == "hold" {
+		// take the list lock and keep it (an open transaction of another process)
+		if l.held != nil || stale {
+			return false
+		}
+		tr, err := st.NewAddition()
+		if err != nil {
+			viol("fresh:newaddition-fails:"+short(err.Error()), fmt.Sprintf("%s failed: %v", o, err))
+			return true
+		}
+		l.held, l.heldBy = tr, o.H
+		return true
+	}
+	if o.Kind == "release" {
+		if l.held == nil || l.heldBy != o.H {
+			return false
+		}
+		l.held.Close()
+		l.held = nil
+		if dirHash(l.w) != before {
+			// only the lock file may disappear
+			if strings.Replace(before, "tables.list.lock=", "", 1) == before {
+				viol("hold:release-changed-directory", "closing an Addition changed the directory")
+			}
+		}
+		return true
+	}
+	if l.held != nil {
+		// the list lock is held elsewhere: every write must fail with ErrLockFailure, change nothing,
+		// and a failed Add must still leave the handle refreshed
+		if l.heldBy == o.H {
+			return false
+		}
+		var err error
+		switch o.Kind {
+		case "add", "retry":
+			t := stk.Txn(fmt.Sprintf("s%d", l.step))
+			err = guard(func() error {
+				return st.Add(func(wr *reftable.Writer) error { return t.Write(wr, st.NextUpdateIndex(), hsz) })
+			})
+			l.failed[o.H] = true
+			if stale {
+				l.staleTry = true
+			}
+		case "newaddition":
+			err = guard(func() error {
+				tr, e := st.NewAddition()
+				if tr != nil {
+					tr.Close()
+				}
+				return e
+			})
+		case "clean":
+			err = guard(func() error { return st.Clean() })
+		case "compactall":
+			err = guard(func() error { return st.CompactAll(nil) })
+			if err == nil {
+				err = reftable.ErrLockFailure // compaction reports contention as "nothing done"
+			}
+		}
+		if err != reftable.ErrLockFailure {
+			viol("locked:write-does-not-fail-with-lock-failure@"+o.Kind, fmt.Sprintf("%s while another handle holds tables.list.lock returned %v", o, err))
+		}
+		if dirHash(l.w) != before {
+			viol("locked:write-changed-directory@"+o.Kind, fmt.Sprintf("%s while another handle holds tables.list.lock changed the directory", o))
+		}
+		if (o.Kind == "add" || o.Kind == "retry") && !mismatch {
+			if up, e := st.UpToDate(); e != nil || !up {
+				viol("stale:not-refreshed-after-failed-add", fmt.Sprintf("after %s failed (list lock held elsewhere, handle stale=%v) UpToDate() = %v, %v", o, stale, up, e))
+			}
+		}
+		return true
 	}
 	wasFailed := l.failed[o.H]
 	l.failed[o.H] = false
@@ -313,6 +388,9 @@ func key9(l *live9) string {
 	for i, st := range l.hs {
 		fmt.Fprintf(&sb, "|h%d:%s:%v", i, strings.Join(st.VerifNames(), ","), l.failed[i])
 	}
+	if l.held != nil {
+		fmt.Fprintf(&sb, "|held by %d", l.heldBy)
+	}
 	return sb.String()
 }
 
@@ -322,9 +400,9 @@ func runC09(tier string, wi, wn int, res *result) {
 		handles []string
 		depth   int
 	}
-	fams := []fam{{[]string{"noauto", "auto"}, 5}, {[]string{"noauto", "s256"}, 4}}
+	fams := []fam{{[]string{"noauto", "auto"}, 7}, {[]string{"noauto", "auto", "noauto"}, 5}, {[]string{"noauto", "s256"}, 5}}
 	if !quick {
-		fams = []fam{{[]string{"noauto", "auto"}, 6}, {[]string{"noauto", "auto", "noauto"}, 5}, {[]string{"noauto", "s256"}, 5}, {[]string{"s256", "noauto", "auto"}, 4}}
+		fams = []fam{{[]string{"noauto", "auto"}, 9}, {[]string{"noauto", "auto", "noauto"}, 7}, {[]string{"noauto", "s256"}, 7}, {[]string{"s256", "noauto", "auto"}, 6}}
 	}
 	unit := 0
 	for _, f := range fams {
@@ -335,7 +413,7 @@ func runC09(tier string, wi, wn int, res *result) {
 				return
 			}
 			for hi := range f.handles {
-				for _, k := range []string{"add", "retry", "compactall", "newaddition", "clean"} {
+				for _, k := range []string{"add", "retry", "compactall", "newaddition", "clean", "hold", "release"} {
 					child := &hist9{Handles: f.handles, Ops: append(append([]op9{}, h.Ops...), op9{hi, k})}
 					if len(child.Ops) == 2 {
 						unit++
